@@ -528,27 +528,28 @@ func translate(ctx *context, args []Datum) (retLit Datum) {
 		return NewLiteralDatum(src)
 	}
 
-	var toChar string
-	var alreadyTranslated = make(map[string]bool)
-	for index, fromChar := range from {
-		// Ensure we don't translate twice.
-		if _, present := alreadyTranslated[string(fromChar)]; present {
-			continue
+	// Map each character of src exactly once (first occurrence in 'from'
+	// wins), so replacements never feed into one another.
+	fromRunes := []rune(from)
+	toRunes := []rune(to)
+	var b strings.Builder
+	for _, c := range src {
+		idx := -1
+		for i, f := range fromRunes {
+			if f == c {
+				idx = i
+				break
+			}
 		}
-		alreadyTranslated[string(fromChar)] = true
-
-		// Work out required replacement / removal
-		if index < len(to) {
-			toChar = to[index : index+1]
-		} else {
-			toChar = ""
+		switch {
+		case idx < 0:
+			b.WriteRune(c)
+		case idx < len(toRunes):
+			b.WriteRune(toRunes[idx])
 		}
-
-		src = strings.Replace(src, string(fromChar), toChar,
-			-1 /* replace all */)
 	}
 
-	return NewLiteralDatum(src)
+	return NewLiteralDatum(b.String())
 }
 
 func xBoolean(ctx *context, args []Datum) Datum {
